@@ -6,7 +6,42 @@
    shutdown completions, in any order, including events the environment cannot produce).  [consumers s] = the table
    ConsumerGroup.consumers; a generator [g] of [gens s] with [adv g = true] is a _join_and_sync past the metadata load
    (shutting consumers down, awaiting JoinGroup, partition lookup or SyncGroup).  Never weaken a statement here. *)
-From AV Require Import Base.Util Model.Group Model.GroupObs Proofs.GroupInv Proofs.GroupInvH Proofs.GroupOut Proofs.GroupC17 Proofs.GroupC16.
+From AV Require Import Base.Util Model.Group Model.GroupObs Proofs.GroupInv Proofs.GroupInvH Proofs.GroupOut Proofs.GroupC17 Proofs.GroupC16 Proofs.GroupLive.
+
+(* ============================ CLAUSE-BY-CLAUSE COVERAGE of the statement of C16 ============================
+   1 "runs partition consumers only for the partitions assigned to it in its current generation"
+       C16_consumers_subset_assignment (every registered consumer, every reachable state), C16_commit_identity (created only by the step
+       handling a successful SyncGroup reply, for a partition of that reply).  Subset only: that EVERY assigned partition gets a consumer
+       is the closed-loop monitor of C17, and C17_constructor_raises_refuted shows where it fails (F-C17-2).
+   2 "each committing with that generation and member id"
+       C16_consumers_subset_assignment + C16_commit_identity for the ids handed to the Consumer constructor (that is all the group code
+       does); that consumer.py / client.py put them into every OffsetCommit frame is NOT a theorem: wire stream of C16.py (real
+       Consumer + real KafkaClient encoders, frames parsed independently), and C03.
+   3 "starting from the group's committed position"
+       C16_start_committed: every StartConsumer entry of every trace carries the OFFSET_COMMITTED flag - true by construction of the
+       model's output encoding (on_join_complete passes the constant, _group.py:856); the content is the trace correspondence, which
+       compares the flag the stub computes from the real argument.  What the Consumer does with it: C02/C03.
+   4 "before joining or rejoining, every consumer of the previous generation has been shut down - committing its progress unless the
+      coordinator rejects the commit"
+       C16_no_consumer_running_at_join / _while_joining (no consumer, registered or shutting down, when JoinGroup goes out and while the
+       exchange is in flight), read off the trace by C16_nobody_leaves_silently, C16_start_registers, C16_nobody_running_means_all_stopped
+       (live_cids = [] => every StartConsumer has been followed by StopConsumer or a completed shutdown);
+       C16_prepare_shuts_down (the join's prepare calls shutdown() on every registered consumer - graceful, the Consumer commits - and no
+       stop()), C16_graceful_shutdown_completes (completions lead to nothing but the JoinGroup, sent when the last one is in);
+       a FAILED shutdown (commit rejected) stops the remaining ones (OStopC, stop_pending in the model) - allowed by the clause.  The
+       commit itself is the Consumer's (C13).
+   5 "on eviction (illegal generation, unknown member, timeout) they are stopped before any rejoin"
+       C16_evicted_step: step level, for a failed JoinGroup / SyncGroup reply to the awaiting generator, a failed heartbeat of the running
+       looper, a failing partition consumer, a failed metadata load and a failed partition lookup (delivers_evicting, six shapes): the
+       table is emptied and every registered consumer gets stop() in that step; C16_evicted_stopped_before_rejoin: the same for the
+       function rejoin_after_error from every reachable state, plus the member id dropped.  A timed-out COORDINATOR LOOKUP is not an
+       eviction and stops nothing (C16_lookup_timeout_keeps_consumers: retried after fatal_backoff; the consumers are shut down
+       gracefully by the prepare of the join that follows).  Consumers already shutting down for a rejoin are left to finish.
+   6 "at most one join/sync exchange in flight"                 C16_single_join, C16_join_only_when_prepared.
+   7 "heartbeats only while a stable member"                    C16_heartbeat_only_stable.
+   8 "after stop no group request other than the leave"          C16_after_stop_only_leave, C16_stop_no_consumers (heartbeats continue while
+       ConsumerGroup.stop() still waits for its consumers; metadata load / coordinator reset are not group requests).
+   ================================================================================================================= *)
 
 (* Consumers only for the partitions assigned in the CURRENT generation, constructed with the current generation and member id
    (the ids their commits carry: afkak/consumer.py passes them to every OffsetCommit). *)
@@ -73,6 +108,46 @@ Theorem C16_evicted_step : forall grp evs e k, let s := state_after grp evs in
 Proof. exact evicted_step. Qed.
 Print Assumptions C16_evicted_step.
 
+(* Clause 3. *)
+Theorem C16_start_committed : forall o, hd 0 (enc_out o) = 10 -> nth 6 (enc_out o) 0 = 1 /\ length (enc_out o) = 7%nat.
+Proof. exact start_committed. Qed.
+Print Assumptions C16_start_committed.
+
+(* Clause 4: graceful shutdown in the join's prepare (any state; the generator awaiting the metadata load, stop() not called). *)
+Theorem C16_prepare_shuts_down : forall s rid g rest, take_first (awaits (GMeta rid)) (gens s) = Some (g, rest) -> stop_pend s = false ->
+  is_group s = true -> consumers s <> [] ->
+  snd (step s (EMeta rid ROk)) = map (fun c => OShutC (c_id c)) (consumers s) /\
+  consumers (fst (step s (EMeta rid ROk))) = [] /\
+  gens (fst (step s (EMeta rid ROk))) = mkGen (g_id g) (GPrepare (map (fun c => mkSh c false) (consumers s))) :: rest.
+Proof. exact prepare_shuts_down. Qed.
+Print Assumptions C16_prepare_shuts_down.
+Theorem C16_graceful_shutdown_completes : forall s gid l rest cid, gens s = mkGen gid (GPrepare l) :: rest -> sh_has cid l = true ->
+  let o := snd (step s (ECShut cid true)) in
+  (forall x, In x o -> exists rid m, x = OJoin rid m) /\ (o <> [] -> sh_all_done (sh_mark_done cid l) = true /\ stop_pend s = false).
+Proof. exact graceful_shutdown_completes. Qed.
+Print Assumptions C16_graceful_shutdown_completes.
+
+(* Clause 4, reading live_cids off the trace (every state, every event): nobody leaves the books except by StopConsumer or a completed
+   shutdown; StartConsumer puts the consumer on the books; hence live_cids = [] means all started consumers are gone. *)
+Theorem C16_nobody_leaves_silently : forall s e x, In x (live_cids s) ->
+  In x (live_cids (fst (step s e))) \/ In (OStopC x) (snd (step s e)) \/ (exists b, e = ECShut x b).
+Proof. exact live_persist. Qed.
+Print Assumptions C16_nobody_leaves_silently.
+Theorem C16_start_registers : forall s e cid t p g m, In (OStartC cid t p g m) (snd (step s e)) -> In cid (live_cids (fst (step s e))).
+Proof. exact start_registers. Qed.
+Print Assumptions C16_start_registers.
+Theorem C16_nobody_running_means_all_stopped : forall grp evs x,
+  live_cids (state_after grp evs) = [] -> ~ started_alive (init grp) evs x.
+Proof. exact nobody_running_means_all_stopped. Qed.
+Print Assumptions C16_nobody_running_means_all_stopped.
+
+(* Clause 5: what a timed-out coordinator lookup does (any state). *)
+Theorem C16_lookup_timeout_keeps_consumers : forall s rid g rest k, take_first (awaits (GLookup rid)) (gens s) = Some (g, rest) -> is_kafka k = true ->
+  consumers (fst (step s (ELookup rid (LFail k)))) = consumers s /\
+  snd (step s (ELookup rid (LFail k))) = [OSched TCoordRetry (lookup_delay (LFail k)) (next_timer s)].
+Proof. exact lookup_timeout_keeps_consumers. Qed.
+Print Assumptions C16_lookup_timeout_keeps_consumers.
+
 (* At most one join/sync exchange: at most one generator is past the metadata load - ever; while stop() has not begun there is
    at most one generator at all and it owns _rejoin_d; two advanced generators are the same one. *)
 Theorem C16_single_join : forall grp evs, let s := state_after grp evs in
@@ -106,6 +181,13 @@ Proof. exact stop_no_consumers. Qed.
 Print Assumptions C16_stop_no_consumers.
 
 (* ---- non-vacuity ---- *)
+Example alive_nonvacuous :               (* the consumer started by the sync is "started and untouched" and is on the books *)
+  let evs := [EStart; ELookup 0 LBroker; EMeta 1 ROk; EJoin 2 (JOk 5 7 0); ESync 3 (SOk [(0, 1)])] in
+  started_alive (init true) evs 0 /\ live_cids (state_after true evs) = [0].
+Proof.
+  split; [|vm_compute; reflexivity].
+  cbn [started_alive]. right. right. right. right. left. split; [|exact I]. exists 0, 1, 5, 7. vm_compute. right. left. reflexivity.
+Qed.
 Example evicted_nonvacuous :             (* a consumer's commit is rejected with ILLEGAL_GENERATION: both consumers stopped, then the rejoin is scheduled *)
   let evs := [EStart; ELookup 0 LBroker; EMeta 1 ROk; EJoin 2 (JOk 5 7 0); ESync 3 (SOk [(0, 1); (1, 0)])] in
   delivers_evicting (state_after true evs) (ECFail 0 KIllGen) KIllGen /\
